@@ -14,7 +14,10 @@ namespace Hv.Storage
 /-- the open `FileWriter` -/
 structure Sess where
   hdr : FileHeader
-  buf : List Entry
+  /-- buffered entries, newest first (`wb.entries` reversed: appending is a cons) -/
+  bufRev : List Entry
+  /-- `len(wb.entries)`, kept as a number so that the executable model stays linear -/
+  bufCount : Nat
   bufSize : Nat
   blockCount : Nat
   entryCount : Nat
@@ -52,7 +55,7 @@ def initHdr (name : Bytes) (now : Nat) : FileHeader :=
     nameLength := name.length % 2 ^ 16, reserved := List.replicate 14 0 }
 
 def createFile (name : Bytes) (now : Nat) : St :=
-  { file := encodeFileHeader (initHdr name now) ++ name, sess := some ⟨initHdr name now, [], 0, 0, 0⟩ }
+  { file := encodeFileHeader (initHdr name now) ++ name, sess := some ⟨initHdr name now, [], 0, 0, 0, 0⟩ }
 
 /-- `NewFileWriterWithName` on a path that does not exist; with the name-length guard the
     constructor fails and nothing usable is left behind -/
@@ -64,19 +67,19 @@ def openExisting (file : Bytes) : Option Sess :=
   if file.length < 64 then none else
   match decodeFileHeader (file.take 64) with
   | .error _ => none
-  | .ok h => some ⟨h, [], 0, h.blockCount, h.entryCount⟩
+  | .ok h => some ⟨h, [], 0, 0, h.blockCount, h.entryCount⟩
 
 /-- in-place rewrite of the first 64 bytes -/
 def rewriteHeader (file : Bytes) (h : FileHeader) : Bytes := encodeFileHeader h ++ file.drop 64
 
 /-- `flushLocked` -/
 def flushSess (codec : Codec) (crc : Checksum) (file : Bytes) (s : Sess) : Bytes × Sess :=
-  if s.buf.isEmpty then (file, s) else
-  let file1 := file ++ encodeBlock codec crc s.buf
+  if s.bufRev.isEmpty then (file, s) else
+  let file1 := file ++ encodeBlock codec crc s.bufRev.reverse
   let bc := (s.blockCount + 1) % 2 ^ 64
-  let ec := (s.entryCount + s.buf.length % 2 ^ 16) % 2 ^ 64
+  let ec := (s.entryCount + s.bufRev.length % 2 ^ 16) % 2 ^ 64
   let hdr := { s.hdr with blockCount := bc, entryCount := ec }
-  (rewriteHeader file1 hdr, { s with hdr := hdr, buf := [], bufSize := 0, blockCount := bc, entryCount := ec })
+  (rewriteHeader file1 hdr, { s with hdr := hdr, bufRev := [], bufCount := 0, bufSize := 0, blockCount := bc, entryCount := ec })
 
 /-- the header rewrite `Sync` and `Close` perform after flushing -/
 def finishSess (codec : Codec) (crc : Checksum) (file : Bytes) (s : Sess) : Bytes × Sess :=
@@ -100,8 +103,8 @@ def step (cfg : Cfg) (codec : Codec) (crc : Checksum) (bs : Nat) (st : St) (op :
     if cfg.rejectsEmptyKey && e.key.isEmpty then (st, .rejEmptyKey)
     else if cfg.rejectsLongKey && 65535 < e.key.length then (st, .rejLongKey)
     else
-      let s1 := { s with buf := s.buf ++ [e], bufSize := s.bufSize + e.size }
-      if shouldFlush cfg bs s1.bufSize s1.buf.length then
+      let s1 := { s with bufRev := e :: s.bufRev, bufCount := s.bufCount + 1, bufSize := s.bufSize + e.size }
+      if shouldFlush cfg bs s1.bufSize s1.bufCount then
         let (f, s2) := flushSess codec crc st.file s1
         ({ file := f, sess := some s2 }, .ok)
       else ({ st with sess := some s1 }, .ok)
@@ -129,7 +132,7 @@ def runOps (cfg : Cfg) (codec : Codec) (crc : Checksum) (bs : Nat) (st : St) (op
 /-- entries still waiting in the write buffer -/
 def St.pending (st : St) : List Entry :=
   match st.sess with
-  | some s => s.buf
+  | some s => s.bufRev.reverse
   | none => []
 
 /-! ### What the API accepted (the Spec side of a history) -/
